@@ -97,12 +97,19 @@ def to_node(tree, flow=False):
     return yaml.MappingNode(tag, [(to_node(a, flow), to_node(b, flow)) for a, b in v], flow_style=flow)
 
 
+class QuotedStr(str):
+    """the text of a scalar that was written quoted (or as a block scalar) and carries an application tag: equal to the
+    plain str everywhere, but the reference semantics can see that, with the tag ignored, it is a string"""
+
+
 def view(n, _depth=0):
     if n is None:
         return None
     if _depth > 50:
         return ('deep',)
     if isinstance(n, yaml.ScalarNode):
+        if n.style is not None and not n.tag.startswith(P):
+            return ('s', n.tag, QuotedStr(n.value))
         return ('s', n.tag, n.value)
     if isinstance(n, yaml.SequenceNode):
         return ('q', n.tag, tuple(view(i, _depth + 1) for i in n.value))
